@@ -34,6 +34,15 @@ def build(rng, tier):
             hist = engcheck.std_history(inst, pid, inp)
             if j % 2 == 1: hist = [o.replace("eng run ", "eng runpl ") for o in hist]
             cases.append(engcheck.Case(pid, inst, hist, {"inp": inp, "kind": "lattice"}))
+        # re-use of the program value: run(); rows removed from the lattice's vector (and from another relation); run() again - the key index (key -> row number)
+        # and the row-number indices must be rebuilt from the vector; oracle: the least fixed point over the rows then present
+        lats = [r for r, d in enumerate(p["rels"]) if d.get("lat")]
+        for j in range(2 if tier == "quick" else 8):
+            g = rng.fork(f"{pid}u{j}")
+            inp = gen.gen_lat_input(g.fork("i"), p)
+            inst = f"{pid}_u{j}"
+            ops, inp2 = engcheck.reuse_history(g, p, inst, pid, inp, run2="runpl" if j % 2 else "run", force_clear=None if j % 2 else g.choice(lats), force_sub=g.choice(lats))
+            cases.append(engcheck.Case(pid, inst, ops, {"inp": inp2, "kind": "lattice-reuse"}))
     # the README shortest-path shape on graphs with cheap long chains and expensive shortcuts: the lattice is read through a non-key index
     # inside its own stratum, keys are improved several iterations after their rows were queued, a later stratum reads the final values
     sp = gen.sp_program()
